@@ -1,6 +1,7 @@
 """C11 - whatever the compiler accepts loads and defines exactly the program's predicates."""
 import inspect
 import itertools
+import os
 
 from .. import impl, pyast
 from .. import refgrammar as rg
@@ -16,7 +17,7 @@ RULE = ('every grammar sentence (clause or directive) with <= N tokens over one 
         'Python constants / engine names / loop-variable look-alikes x 4 clause shapes; 24 predicate names (Python '
         'keywords, suffix look-alikes, quoted names with spaces, operators, digits, non-ASCII, empty) as clause head; '
         'bodies that cannot succeed; 26 words of the target language (yield, return, pass, doBreak, ...) as atoms, functor names and goal names in succeeding and never-succeeding clauses; conjunction length 1..30, a grid of mixed sizes (0..20 goals x if-then-else nested 0..12 deep x 0/4/9 structured head arguments; 1..25 negated goals; 1..9 if-then-else goals in sequence), head arity 0..40, term nesting 1..120, list length '
-        '0..300, disjunction / if-then-else / negation nesting 1..12. Every family program is compiled alone and between two ordinary predicates. If the compiler returns text: it must compile as '
+        '0..300, disjunction / if-then-else / negation nesting 1..12. Every family program is compiled alone and between two ordinary predicates; every text is also written to ONE file (rewritten for each text) and compiled through compile_prolog_from_file, which must return exactly what compile_prolog_from_string returns for the text the file holds now. If the compiler returns text: it must compile as '
         'Python, its module body must be function definitions only, loading it must add exactly the keys name_arity '
         'of the clause heads (RefGrammar), each a generator function, each callable through query without a '
         'NameError/TypeError/UnboundLocalError. A CompilerError is accepted instead of code. states = distinct '
@@ -115,8 +116,39 @@ def families():
 MUST_ACCEPT = ('numeral', 'variable', 'never-succeeds', 'python-words')
 
 
+# The file API on ONE path whose content is rewritten for every program of a shard: what the file
+# holds when it is compiled is what counts (programs of equal length follow each other within a
+# second all the time in the families)
+REUSED = {'path': None, 'previous': None, 'previous_before': None}
+
+
+def compile_reused(text):
+    with open(REUSED['path'], 'w', encoding='utf8', newline='') as f:
+        f.write(text)
+    try:
+        return impl.compiler.compile_prolog_from_file(REUSED['path'], impl.Ctx)
+    except Exception as e:  # noqa: BLE001
+        return 'EXC:' + type(e).__name__
+
+
 def check_text(text, tag=None):
     """-> (status, sig, detail, outcome)"""
+    if REUSED['path'] is not None:
+        prev = REUSED['previous_before'] = REUSED['previous']
+        got = compile_reused(text)
+        REUSED['previous'] = text
+        try:
+            want = impl.compile_text(text)
+        except Exception as e:  # noqa: BLE001
+            want = 'EXC:' + type(e).__name__
+        if got != want:
+            return ('violation', 'file-api-differs-from-string-api',
+                    'text: %r\nwritten to a file that held %r before: compile_prolog_from_file returns\n%s\nbut compile_prolog_from_string of the same text returns\n%s'
+                    % (text[:300], (prev or '')[:300], got[-400:], want[-400:]), None)
+    return check_text_1(text, tag)
+
+
+def check_text_1(text, tag=None):
     r = rg.analyse(text)
     try:
         out = impl.compile_text(text)
@@ -201,7 +233,7 @@ def _process(acc, index, tag, text):
     except Hang as e:
         st, sig, detail, outcome = 'violation', 'hang', '%r: %s' % (text[:200], e), None
     if st == 'violation':
-        acc.violation(tag + ':' + sig, index, {'text': text, 'tag': tag}, detail, key=text)
+        acc.violation(tag + ':' + sig, index, {'text': text, 'tag': tag, 'previous': REUSED['previous_before'] if sig.startswith('file-api') else None}, detail, key=text)
         return
     acc.outcome(outcome if len(repr(outcome)) < 200 else outcome[:1])
     acc.n['family:' + tag] += 1
@@ -218,6 +250,19 @@ def plan(tier):
 
 
 def run_shard(spec):
+    import shutil
+    import tempfile
+    d = tempfile.mkdtemp(prefix='verif-c11-')
+    REUSED['path'] = os.path.join(d, 'program.prolog')
+    REUSED['previous'] = None
+    try:
+        return _run_shard(spec)
+    finally:
+        REUSED['path'] = None
+        shutil.rmtree(d, ignore_errors=True)
+
+
+def _run_shard(spec):
     tier, kind, k, n = spec
     acc = Acc()
     if kind == 'seeds':
@@ -248,6 +293,19 @@ for _k, _v in list(c10.CLASS_MEMBERS.items()):
 
 
 def replay(case):
+    if case.get('previous') is not None:
+        import shutil
+        import tempfile
+        d = tempfile.mkdtemp(prefix='verif-c11-')
+        REUSED['path'] = os.path.join(d, 'program.prolog')
+        try:
+            compile_reused(case['previous'])
+            REUSED['previous'] = case['previous']
+            st, sig, detail, _ = check_text(case['text'], case.get('tag'))
+        finally:
+            REUSED['path'] = None
+            shutil.rmtree(d, ignore_errors=True)
+        return [(sig, detail)] if st == 'violation' else []
     st, sig, detail, _ = check_text(case['text'], case.get('tag'))
     if st == 'violation':
         return [(sig, detail)]
